@@ -66,6 +66,21 @@ def match(chk, fx):
                           "the match length is recorded as %s: it must be a snapshot (result.len = <counter>) taken at "
                           "an accepting state" % lens)
             return
+        if rt is not None and ln is not None:
+            # the state variable was not recognised (another way of stepping), but the snapshot was: it must be taken
+            # at EVERY accepting state, i.e. its condition may only ask whether the state accepts
+            snap_c = actual.get(("assign", "(?%s.len = ?%s)" % (rt, ln)))
+            if snap_c:
+                fixed = None
+                for conj in snap_c:
+                    others = {(a, p) for a, p in conj if "conflicted_recognition[0]" not in a}
+                    fixed = others if fixed is None else (fixed & others)
+                if fixed:
+                    chk.violation("MATCH", A.site(f, loop), "MATCH:snapshot-condition",
+                                  "the length / winning term are recorded only when additionally %s: an accepting state passed "
+                                  "on the way to a longer non-match is forgotten, so the longest-match fallback is lost" %
+                                  PS.show({frozenset(fixed)})[:200])
+                    return
         chk.incomplete("dfa_match: result/counter/state roles not recognised")
     REC = "$0[?%s].conflicted_recognition[0]" % st
     TR = "$0[?%s].transitions[char_to_idx(*$3)]" % st
